@@ -403,6 +403,22 @@ def _one(ctx, spec, states, n, T, seed, run, profile) -> bool:
         own_only_extra = [t for t in times if not any(abs(t - a) <= tol for a in (own or []))]
         if own_only_extra and own is not None and default != "Full":
             stats["probe/own_times_also_evaluated_at_default_times"] += 1
+        # what the accessors hand out is the caller's: editing it must not edit the Results
+        try:
+            handed = [res.get_result_times(o), res.get_tagged_results()[o.tag], getattr(res, o.tag)]
+            before = ([float(x) for x in handed[0]], len(handed[1]), len(handed[2]))
+            for lst in handed:
+                if isinstance(lst, list) and lst:
+                    lst.reverse()
+                    lst.pop()
+            after = ([float(x) for x in res.get_result_times(o)], len(res.get_tagged_results()[o.tag]), len(getattr(res, o.tag)))
+            stats["accessor_lists_tampered"] += 1
+            if after != before:
+                ctx.viol("C20/retrieval-aliasing", 0, f"{o.tag}: editing the lists returned by get_result_times / get_tagged_results / the tag attribute changed the stored results: times+lengths {before} -> {after}")
+                return False
+        except Exception as e:  # noqa: BLE001
+            ctx.viol("C20/retrieval", 0, f"{o.tag}: retrieval raised {type(e).__name__}: {str(e)[:100]}")
+            return False
         # retrieval by observable / tag / attribute agree
         try:
             tagged = res.get_tagged_results()[o.tag]
